@@ -170,11 +170,11 @@ pub fn run_core_at(doc: &DocM, ops: &[Op], targets: Vec<usize>, mode: Mode, mode
         let r = guarded(|| it.apply(&mut st, op));
         match r {
             Ok((Ok(()), t)) => touches.push(t),
-            Ok((Err(e), _)) => { if std::env::var_os("C08_ENDED").is_some() { println!("ENDED {} at {i}: Err {e}", op.kind()); }
+            Ok((Err(_), _)) => {
                 let _ = guarded(|| it.close_all());
                 return Run::Ended { index: i, kind: op.kind(), panic: false };
             }
-            Err((sig, _)) => { if std::env::var_os("C08_ENDED").is_some() { println!("ENDED {:?} at {i}: {sig}", op); }
+            Err(_) => {
                 // the state may be inconsistent (poisoned lock): dispose of it under a guard
                 let _ = guarded(move || {
                     it.close_all();
@@ -581,7 +581,9 @@ pub fn expand_long(c: &LongCase) -> LongHistory {
                 steps += 1;
             }
             55..=78 => {
-                ops.push(Op::MoveLayer { x: ((a % 5) as i8) - 1, y: (((a >> 8) % 4) as i8) - 1 });
+                // offsets stay >= 0: a resize with layers crops every layer to the buffer, and with negative offsets the layers would
+                // erode to nothing over a long history (and the next resize / move would fail)
+                ops.push(Op::MoveLayer { x: (a % 4) as i8, y: ((a >> 8) % 3) as i8 });
                 steps += 1;
             }
             79..=86 => {
